@@ -95,15 +95,59 @@ class TasksRun:
                 raise EXN[3]()
             stop.set()
 
+        fn: Any = act
         if a.get("async"):
             async def aact() -> None:
                 await anyio.lowlevel.checkpoint()
                 act()
 
-            return aact
-        return act
+            fn = aact
+        kind = a.get("kind", "fn")
+        if kind == "partial":
+            import functools
+
+            return functools.partial(lambda f: f(), fn)
+        if kind in ("method", "obj", "falsyobj"):
+            class Stopper:
+                """"any callable": an object with __call__ (its truth value may well be False)"""
+
+                def __call__(self) -> Any:
+                    return fn()
+
+                def stop(self) -> Any:
+                    return fn()
+
+                if kind == "falsyobj":
+                    def __bool__(self) -> bool:
+                        return False
+
+            return Stopper().stop if kind == "method" else Stopper()
+        return fn
 
     async def setup(self, owner: Any) -> None:
+        if self.case.get("via_component"):
+            # the same set-up done by a component's start(): every call goes through the component's own
+            # context (the module-level shortcuts), which hands it on to the owner
+            import asphalt.core as ac
+
+            run = self
+
+            class Through:
+                add_resource = staticmethod(ac.add_resource)
+                add_teardown_callback = staticmethod(ac.add_teardown_callback)
+                start_service_task = staticmethod(ac.start_service_task)
+
+            class Comp(ac.Component):
+                async def start(self) -> None:
+                    await run.program(Through(), nested_ok=False)
+
+            await ac.start_component(Comp, timeout=None)
+        else:
+            await self.program(owner, nested_ok=True)
+        await anyio.sleep(self.case["exit_at"] * TICK)
+        self.log("exitBegin")
+
+    async def program(self, owner: Any, nested_ok: bool) -> None:
         for step in self.case["prog"]:
             op = step["op"]
             if op == "reg":
@@ -117,7 +161,7 @@ class TasksRun:
                 await anyio.sleep(step["d"] * TICK)
             elif op == "start":
                 stop = anyio.Event()
-                if step.get("from_nested"):
+                if step.get("from_nested") and nested_ok:
                     # started through the owner while another (nested) context is current: the task's
                     # context must still inherit from the owner, not from the caller's current context
                     from asphalt.core import Context
@@ -129,8 +173,6 @@ class TasksRun:
                 else:
                     await owner.start_service_task(self.make_body(step, stop), f"task{step['tid']}",
                                                    teardown_action=self.make_action(step, stop))
-        await anyio.sleep(self.case["exit_at"] * TICK)
-        self.log("exitBegin")
 
     async def main(self) -> dict[str, Any]:
         import logging
